@@ -21,6 +21,7 @@ import (
 	"net/http"
 	"os"
 	"path/filepath"
+	"regexp"
 	"sort"
 	"strconv"
 	"strings"
@@ -349,6 +350,9 @@ func c11NewWorld(t *testing.T) *c11World {
 				return
 			}
 			w.raceArmed = false
+			if os.Getenv("VERIF_DEBUG") != "" {
+				fmt.Printf("RACE CALLBACK table=%s dest=%T %+v\n", tx.Statement.Table, tx.Statement.Dest, tx.Statement.Dest)
+			}
 			sqlDB, _ := db.DB()
 			before := sqlDB.Stats().WaitCount
 			done := make(chan string, 1)
@@ -650,22 +654,54 @@ func (w *c11World) exec(op c11Op) (line string) {
 	return "bad-op:" + op.Op
 }
 
-// ---------- generator
+// ---------- generator (online: the next operation is chosen knowing the implementation's earlier answers)
 
 var c11Issuers = []string{"did:web:example.com:iam:alice", "did:web:example.com:iam:bob", "did:web:carol.example", "did:web:example.com:iam:nokey", "did:web:unknown.example"}
+var c11Foreign = []string{"https://evil.example/list/1", "https://other.example/statuslist/did:web:example.com:iam:alice/1", "https://lists.example/a"}
 
-type c11Gen struct {
-	rng   *rand.Rand
-	ops   []c11Op
-	sc    int
-	lists map[string]int // "node/issuer/page" -> highest index handed out (generator's own bookkeeping for plausible inputs)
+type c11Entry struct {
+	list c11URL
+	idx  int
 }
 
-func (g *c11Gen) emit(op c11Op) { op.Sc = g.sc; g.ops = append(g.ops, op) }
+type c11Gen struct {
+	rng     *rand.Rand
+	sc      int
+	nticks  int
+	entries []c11Entry // entries handed out in this scenario (parsed from the implementation's lines)
+	revoked []c11Entry // successfully revoked
+	hosted  []string
+}
+
+var c11EntryRe = regexp.MustCompile(`n(\d+)/(\S+)/(\d+) (\d+) wf=`)
+
+func (g *c11Gen) observe(op c11Op, line string) {
+	switch op.Op {
+	case "reset":
+		g.entries, g.revoked, g.hosted, g.nticks = nil, nil, nil, 0
+	case "entry", "race", "par":
+		for _, m := range c11EntryRe.FindAllStringSubmatch(line, -1) {
+			n, _ := strconv.Atoi(m[1])
+			p, _ := strconv.Atoi(m[3])
+			i, _ := strconv.Atoi(m[4])
+			g.entries = append(g.entries, c11Entry{list: c11URL{Node: n, Issuer: m[2], Page: p}, idx: i})
+		}
+	case "revoke":
+		if line == "revoke ok" {
+			i, _ := strconv.Atoi(op.Idx)
+			g.revoked = append(g.revoked, c11Entry{list: *op.List, idx: i})
+		}
+	case "host":
+		g.hosted = append(g.hosted, op.Host.URL)
+	}
+}
 
 func (g *c11Gen) pick(l []string) string { return l[g.rng.Intn(len(l))] }
 
 func (g *c11Gen) someList(node int) c11URL {
+	if len(g.entries) > 0 && g.rng.Intn(4) != 0 {
+		return g.entries[g.rng.Intn(len(g.entries))].list
+	}
 	return c11URL{Node: node, Issuer: g.pick(c11Issuers[:3]), Page: 1 + g.rng.Intn(3)}
 }
 
@@ -687,99 +723,148 @@ func (g *c11Gen) someIdx() string {
 	return strconv.Itoa(g.rng.Intn(6))
 }
 
+// an entry to revoke / to name in a credential: mostly one that was really handed out (or already revoked)
+func (g *c11Gen) someEntry(node int) (c11URL, string) {
+	r := g.rng
+	switch {
+	case len(g.revoked) > 0 && r.Intn(4) == 0:
+		e := g.revoked[r.Intn(len(g.revoked))]
+		return e.list, strconv.Itoa(e.idx)
+	case len(g.entries) > 0 && r.Intn(5) != 0:
+		e := g.entries[r.Intn(len(g.entries))]
+		if r.Intn(8) == 0 {
+			return e.list, g.someIdx()
+		}
+		return e.list, strconv.Itoa(e.idx)
+	case r.Intn(4) == 0:
+		return c11URL{Node: -1, Raw: g.pick(c11Foreign)}, g.someIdx()
+	}
+	return g.someList(node), g.someIdx()
+}
+
 func (g *c11Gen) tickSecs() int {
 	ms := []int{0, 0, 0, 1, 1, 2, 23, 24, 47, 71, 72, 95, 96, 97, 200}
 	return ms[g.rng.Intn(len(ms))]*900 + 60
 }
 
-func (g *c11Gen) scenario(sc int, steps int) {
-	g.sc = sc
+func (g *c11Gen) hostOp() c11Op {
 	r := g.rng
-	g.emit(c11Op{Op: "reset", Dids: c11Issuers})
-	nticks := 0
-	foreign := []string{"https://evil.example/list/1", "https://other.example/statuslist/did:web:example.com:iam:alice/1"}
-	for i := 0; i < steps; i++ {
-		node := 0
-		if r.Intn(5) == 0 {
-			node = 1
+	kinds := []string{"ok", "ok", "ok", "ok", "fail", "garbage", "badsig", "wrongsubject", "suspension", "noexp", "short", "noproof", "twosubjects",
+		"emptylist", "badlist", "status", "types3", "noctx", "subjtype"}
+	h := c11Host{URL: g.pick(c11Foreign), Kind: g.pick(kinds), Signer: g.pick([]string{"did:web:evil.example", "did:web:example.com:iam:alice"}),
+		ExpIn: []int{20, 920, 86420, 1820}[r.Intn(4)]}
+	for j := r.Intn(4); j > 0; j-- {
+		h.Bits = append(h.Bits, r.Intn(6))
+	}
+	if h.Kind == "short" {
+		h.LenBytes = 1 + r.Intn(2)
+		h.Kind = "ok"
+	}
+	if h.Kind == "wrongsubject" {
+		h.Subject = g.someList(0)
+		if r.Intn(2) == 0 {
+			h.Subject = c11URL{Node: -1, Raw: g.pick(c11Foreign)}
+			if h.Subject.Raw == h.URL {
+				h.Subject.Raw += "/x"
+			}
 		}
-		switch k := r.Intn(100); {
-		case k < 22:
-			is := g.pick(c11Issuers[:3])
-			if r.Intn(12) == 0 {
-				is = g.pick(c11Issuers)
-			}
-			p := StatusPurposeRevocation
-			if r.Intn(25) == 0 {
-				p = statusPurposeSuspension
-			}
-			g.emit(c11Op{Op: "entry", Node: node, Issuer: is, Purpose: p})
-		case k < 27:
-			g.emit(c11Op{Op: "race", Node: node, Issuer: g.pick(c11Issuers[:3])})
-		case k < 31:
-			n := 2 + r.Intn(5)
-			var l []string
-			for j := 0; j < n; j++ {
-				l = append(l, g.pick(c11Issuers[:3]))
-			}
-			g.emit(c11Op{Op: "par", Node: node, Issuers: l})
-		case k < 39:
-			u := g.someList(node)
-			to := maxBitstringIndex - r.Intn(3)
-			if r.Intn(3) == 0 {
-				to = r.Intn(10)
-			}
-			g.emit(c11Op{Op: "bump", Node: node, List: &u, To: to})
-		case k < 57:
-			u := g.someList(node)
-			if r.Intn(10) == 0 {
-				u = c11URL{Node: -1, Raw: g.pick(foreign)}
-			}
-			p := StatusPurposeRevocation
-			if r.Intn(20) == 0 {
-				p = statusPurposeSuspension
-			}
-			g.emit(c11Op{Op: "revoke", Node: node, List: &u, Idx: g.someIdx(), Purpose: p})
-		case k < 69:
-			g.emit(c11Op{Op: "serve", Node: node, Issuer: g.pick(c11Issuers[:4]), Page: r.Intn(4)})
-		case k < 77:
-			if nticks < 12 {
-				nticks++
-				g.emit(c11Op{Op: "tick", Secs: g.tickSecs()})
-			}
-		case k < 80:
-			u := g.someList(r.Intn(2))
-			g.emit(c11Op{Op: "record", Node: r.Intn(2), List: &u})
-		default:
-			// verify on either node a credential naming a list of either node
-			var sts []c11Status
-			ns := 1
-			if r.Intn(6) == 0 {
-				ns = 2
-			}
-			for j := 0; j < ns; j++ {
-				st := c11Status{Type: StatusList2021EntryType, Purpose: "revocation", List: g.someList(r.Intn(2)), Idx: g.someIdx()}
-				switch r.Intn(14) {
-				case 0:
-					st.Type = "OtherStatus"
-				case 1:
-					st.Purpose = "suspension"
-				case 2:
-					st.List = c11URL{Node: -1, Raw: g.pick(foreign)}
-				}
-				sts = append(sts, st)
-			}
-			c := c11Cred{ID: "did:web:example.com:iam:alice#c" + strconv.Itoa(r.Intn(5)), IssuerDID: "did:web:example.com:iam:alice", Statuses: sts}
-			if r.Intn(20) == 0 {
-				c.NoStatus = true
-			}
-			g.emit(c11Op{Op: "verify", Node: r.Intn(2), Cred: &c})
+	}
+	return c11Op{Op: "host", Host: &h}
+}
+
+func (g *c11Gen) next() c11Op {
+	r := g.rng
+	node := 0
+	if r.Intn(5) == 0 {
+		node = 1
+	}
+	switch k := r.Intn(100); {
+	case k < 20:
+		is := g.pick(c11Issuers[:3])
+		if r.Intn(12) == 0 {
+			is = g.pick(c11Issuers)
 		}
+		p := StatusPurposeRevocation
+		if r.Intn(25) == 0 {
+			p = statusPurposeSuspension
+		}
+		return c11Op{Op: "entry", Node: node, Issuer: is, Purpose: p}
+	case k < 25:
+		return c11Op{Op: "race", Node: node, Issuer: g.pick(c11Issuers[:3])}
+	case k < 29:
+		n := 2 + r.Intn(5)
+		var l []string
+		for j := 0; j < n; j++ {
+			l = append(l, g.pick(c11Issuers[:3]))
+		}
+		return c11Op{Op: "par", Node: node, Issuers: l}
+	case k < 36:
+		u := g.someList(node)
+		to := maxBitstringIndex - r.Intn(3)
+		if r.Intn(4) == 0 {
+			to = r.Intn(10)
+		}
+		return c11Op{Op: "bump", Node: u.Node, List: &u, To: to}
+	case k < 54:
+		u, idx := g.someEntry(node)
+		n := node
+		if u.Node >= 0 && r.Intn(10) != 0 {
+			n = u.Node // revoke on the node that manages the list (otherwise: not found)
+		}
+		p := StatusPurposeRevocation
+		if r.Intn(20) == 0 {
+			p = statusPurposeSuspension
+		}
+		return c11Op{Op: "revoke", Node: n, List: &u, Idx: idx, Purpose: p}
+	case k < 64:
+		if len(g.entries) > 0 && r.Intn(5) != 0 {
+			u := g.entries[r.Intn(len(g.entries))].list
+			return c11Op{Op: "serve", Node: u.Node, Issuer: u.Issuer, Page: u.Page}
+		}
+		return c11Op{Op: "serve", Node: node, Issuer: g.pick(c11Issuers[:4]), Page: r.Intn(4)}
+	case k < 72:
+		if g.nticks < 12 {
+			g.nticks++
+			return c11Op{Op: "tick", Secs: g.tickSecs()}
+		}
+		return g.next()
+	case k < 75:
+		u := g.someList(r.Intn(2))
+		if len(g.hosted) > 0 && r.Intn(3) == 0 {
+			u = c11URL{Node: -1, Raw: g.pick(g.hosted)}
+		}
+		return c11Op{Op: "record", Node: r.Intn(2), List: &u}
+	case k < 80:
+		return g.hostOp()
+	default:
+		var sts []c11Status
+		ns := 1
+		if r.Intn(6) == 0 {
+			ns = 2 + r.Intn(2)
+		}
+		for j := 0; j < ns; j++ {
+			u, idx := g.someEntry(r.Intn(2))
+			st := c11Status{Type: StatusList2021EntryType, Purpose: "revocation", List: u, Idx: idx}
+			switch r.Intn(16) {
+			case 0:
+				st.Type = "OtherStatus"
+			case 1:
+				st.Purpose = "suspension"
+			case 2, 3:
+				st.List = c11URL{Node: -1, Raw: g.pick(c11Foreign)}
+				st.Idx = strconv.Itoa(r.Intn(6))
+			}
+			sts = append(sts, st)
+		}
+		c := c11Cred{ID: "did:web:example.com:iam:alice#c" + strconv.Itoa(r.Intn(5)), IssuerDID: "did:web:example.com:iam:alice", Statuses: sts}
+		if r.Intn(25) == 0 {
+			c.NoStatus = true
+		}
+		return c11Op{Op: "verify", Node: r.Intn(2), Cred: &c}
 	}
 }
 
-func (g *c11Gen) bitsOp() {
-	r := g.rng
+func c11BitsOp(r *rand.Rand) c11Op {
 	n := []int{0, 1, 2, 3, 16, defaultBitstringLengthInBytes}[r.Intn(6)]
 	var sets []c11BitOp
 	var gets []int
@@ -806,7 +891,7 @@ func (g *c11Gen) bitsOp() {
 	for _, s := range sets {
 		gets = append(gets, s.I)
 	}
-	g.emit(c11Op{Op: "bits", Len: n, Sets: sets, Gets: gets})
+	return c11Op{Op: "bits", Len: n, Sets: sets, Gets: gets}
 }
 
 // ---------- test entry point
@@ -821,50 +906,6 @@ func TestVerifC11(t *testing.T) {
 	nScen, _ := strconv.Atoi(os.Getenv("VERIF_SCENARIOS"))
 	if nScen == 0 {
 		nScen = 40
-	}
-	var ops []c11Op
-	readOps := func(path string) {
-		f, err := os.Open(path)
-		if err != nil {
-			t.Fatal(err)
-		}
-		defer f.Close()
-		sc := bufio.NewScanner(f)
-		sc.Buffer(make([]byte, 1<<20), 1<<26)
-		for sc.Scan() {
-			var op c11Op
-			if json.Unmarshal(sc.Bytes(), &op) == nil && op.Op != "" {
-				ops = append(ops, op)
-			}
-		}
-	}
-	if rp := os.Getenv("VERIF_REPLAY"); rp != "" {
-		readOps(rp)
-	} else {
-		if cd := os.Getenv("VERIF_CORPUS"); cd != "" {
-			files, _ := filepath.Glob(filepath.Join(cd, "*.jsonl"))
-			sort.Strings(files)
-			for _, fn := range files {
-				readOps(fn)
-			}
-		}
-		g := &c11Gen{rng: rand.New(rand.NewSource(seed*7919 + 11))}
-		// exhaustive small bitstring differential: every index of a 2-byte string, set then read all
-		for i := -1; i <= 17; i++ {
-			var gets []int
-			for j := -1; j <= 17; j++ {
-				gets = append(gets, j)
-			}
-			g.emit(c11Op{Op: "bits", Len: 2, Sets: []c11BitOp{{I: i, V: true}}, Gets: gets})
-			g.emit(c11Op{Op: "bits", Len: 2, Sets: []c11BitOp{{I: 3, V: true}, {I: i, V: true}, {I: i, V: false}}, Gets: gets})
-		}
-		for i := 0; i < 40; i++ {
-			g.bitsOp()
-		}
-		for sc := 0; sc < nScen; sc++ {
-			g.scenario(sc, 12+g.rng.Intn(30))
-		}
-		ops = append(ops, g.ops...)
 	}
 	w := c11NewWorld(t)
 	w.reset(c11Issuers)
@@ -881,12 +922,65 @@ func TestVerifC11(t *testing.T) {
 	bo, bi := bufio.NewWriter(fo), bufio.NewWriter(fi)
 	defer bo.Flush()
 	defer bi.Flush()
-	for _, op := range ops {
+	run := func(op c11Op) string {
 		line := w.exec(op)
 		js, _ := json.Marshal(op)
 		bo.Write(js)
 		bo.WriteByte('\n')
 		bi.WriteString(line)
 		bi.WriteByte('\n')
+		return line
+	}
+	readOps := func(path string) {
+		f, err := os.Open(path)
+		if err != nil {
+			t.Fatal(err)
+		}
+		defer f.Close()
+		sc := bufio.NewScanner(f)
+		sc.Buffer(make([]byte, 1<<20), 1<<26)
+		for sc.Scan() {
+			var op c11Op
+			if json.Unmarshal(sc.Bytes(), &op) == nil && op.Op != "" {
+				run(op)
+			}
+		}
+	}
+	if rp := os.Getenv("VERIF_REPLAY"); rp != "" {
+		readOps(rp)
+		return
+	}
+	if cd := os.Getenv("VERIF_CORPUS"); cd != "" {
+		files, _ := filepath.Glob(filepath.Join(cd, "*.jsonl"))
+		sort.Strings(files)
+		for _, fn := range files {
+			readOps(fn)
+		}
+	}
+	rng := rand.New(rand.NewSource(seed*7919 + 11))
+	// exhaustive small bitstring differential: every index of a 2-byte string, set then read all
+	for i := -1; i <= 17; i++ {
+		var gets []int
+		for j := -1; j <= 17; j++ {
+			gets = append(gets, j)
+		}
+		run(c11Op{Op: "bits", Len: 2, Sets: []c11BitOp{{I: i, V: true}}, Gets: gets})
+		run(c11Op{Op: "bits", Len: 2, Sets: []c11BitOp{{I: 3, V: true}, {I: i, V: true}, {I: i, V: false}}, Gets: gets})
+	}
+	for i := 0; i < 40; i++ {
+		run(c11BitsOp(rng))
+	}
+	g := &c11Gen{rng: rng}
+	for sc := 0; sc < nScen; sc++ {
+		g.sc = sc
+		reset := c11Op{Op: "reset", Sc: sc, Dids: c11Issuers}
+		g.observe(reset, run(reset))
+		steps := 12 + rng.Intn(34)
+		start := time.Now()
+		for i := 0; i < steps && time.Since(start) < 20*time.Second; i++ {
+			op := g.next()
+			op.Sc = sc
+			g.observe(op, run(op))
+		}
 	}
 }
